@@ -44,4 +44,19 @@ TEXT = {
                  "the old momentum (fixed). Exploration.",
         "note": "Trusted: the harness re-implementation. Non-mutual couplings (which the contact models can leave behind) are outside the quantifier.",
     },
+    "C12": {
+        "technique": "rapidcheck property-based testing; differential against independent long-double geometry + metamorphic relations (rigid motion, renumbering, winding mix, uniform scaling)",
+        "level": "Volume, area, centroid and bounding box are compared with independent implementations evaluated about the mesh centre; the "
+                 "same surface is re-submitted in a second frame, with another numbering and winding mix, and scaled; outwardness and "
+                 "cached normals are decided by the independent topology oracle. Exploration over thousands of generated inputs per run.",
+        "note": "Trusted: geom.hpp. The tolerance of the volume is the error model of the code's origin-anchored formula, so a loss of accuracy "
+                "far from the origin below that model is not reported.",
+    },
+    "C11": {
+        "technique": "rapidcheck property-based testing; trace-driven shadow model (operation trace replayed on an independent copy), invariants for momentum / volume / area, fixpoint check on conforming meshes",
+        "level": "Complete per pass: any node that moved, appeared off-midpoint, or any triangle/label not explained by the traced "
+                 "operations makes the final cell differ from the shadow; every split/collapse is checked against the length band in the "
+                 "shadow's own coordinates. Hundreds of thousands of refiner operations per quick run. Termination is only sampled.",
+        "note": "Trusted: the shadow replay in the harness and hook H4 (3 added lines in local_mesh_refiner.cpp). Liveness is decided as 'returned within the watchdog on every generated input'.",
+    },
 }
